@@ -368,13 +368,13 @@ func cmdCheck(args []string) {
 				}
 			}
 			if o.SMTPath != "" {
-				dst := filepath.Join(replayDir, fmt.Sprintf("%s-%s.smt2", *prop, sanitize(stripLines(o.Name))))
+				dst := filepath.Join(replayDir, fmt.Sprintf("%s-%s.smt2", *prop, fileSafe(stripLines(o.Name))))
 				if data, err := os.ReadFile(o.SMTPath); err == nil {
 					os.WriteFile(dst, data, 0o644)
 					rp.SMTFile = dst
 				}
 			}
-			path := filepath.Join(replayDir, fmt.Sprintf("%s-%s.json", *prop, sanitize(stripLines(o.Name))))
+			path := filepath.Join(replayDir, fmt.Sprintf("%s-%s.json", *prop, fileSafe(stripLines(o.Name))))
 			writeJSON(path, rp)
 			violations++
 			line := fmt.Sprintf("VIOLATION property=%s replay=%s obligation=%s", *prop, path, strings.ReplaceAll(o.Name, " ", "_"))
@@ -432,7 +432,7 @@ func cmdCheck(args []string) {
 			reported[label] = true
 			rp := &Replay{Property: *prop, Function: f.key, PackageDir: f.p.Dir, What: fl.What, Inputs: fl.Inputs, Lits: fl.Lits, Confirmed: true,
 				Source: "bounded-enumeration", Kind: "contract evaluated on the real code"}
-			path := filepath.Join(replayDir, fmt.Sprintf("%s-%s-%s.json", *prop, sanitize(f.key), sanitize(label)))
+			path := filepath.Join(replayDir, fmt.Sprintf("%s-%s-%s.json", *prop, fileSafe(f.key), fileSafe(label)))
 			writeJSON(path, rp)
 			violations++
 			vioLines = append(vioLines, fmt.Sprintf("VIOLATION property=%s replay=%s", *prop, path))
@@ -609,4 +609,17 @@ func writeEvidence(prop, tier string, seed int64, level string, cov map[string]i
 	}
 	os.MkdirAll(filepath.Join(verifRoot, "evidence"), 0o755)
 	writeJSON(filepath.Join(verifRoot, "evidence", prop+".json"), ev)
+}
+
+func fileSafe(s string) string {
+	var b strings.Builder
+	for _, r := range s {
+		switch {
+		case r >= 'a' && r <= 'z', r >= 'A' && r <= 'Z', r >= '0' && r <= '9', r == '.', r == '-', r == '_':
+			b.WriteRune(r)
+		default:
+			b.WriteByte('_')
+		}
+	}
+	return b.String()
 }
